@@ -306,6 +306,7 @@ def generate(seed, index):
         "cross_arch": rng.random() < 0.8,
         "rescan": rng.random() < 0.6,
         "interleave": rng.random() < 0.85,
+        "observe": rng.random() < 0.6,
     }
     nclients = rng.randint(1, 6)
     n_evals = rng.randint(5, 40)
@@ -313,7 +314,7 @@ def generate(seed, index):
     setup = []
     faults = {"F1_readdir_order": 0, "F3_history_order": 0, "F4_reapply_same": 0,
               "F5_reapply_other": 0, "F6_arg_permutation": 0, "F7_rescan": 0,
-              "F9_client_interleave": 0}
+              "F9_client_interleave": 0, "F11_observation_between_evaluations": 0}
     # evaluables: one per cfg, created in the setup phase under a chosen listing order
     evs = {}  # ev id -> cfg id
     ev_of_cfg = {}
@@ -337,6 +338,7 @@ def generate(seed, index):
         arch = [(n, tuple(c)) for n, c in archs[aid]["layers"]]
         prng = random.Random(f"{seed}:{index}:{aid}") if swarm["permute_args"] else None
         setup.extend(compile_arch(aid, arch, prng))
+        setup.append({"op": "str", "obj": aid})  # reference listing of the shared definition
         if prng is not None:
             faults["F6_arg_permutation"] += 1
 
@@ -409,7 +411,19 @@ def generate(seed, index):
                     # phase, or one this client created itself by a rescan
                     ev = W.pick(rng, [ev_of_cfg[cid][0]] + own_evs.get(cid, []))
                 key = f"{robjs[oid]}|{cid}"
+                if swarm["observe"] and rng.random() < 0.15:
+                    # read-only observations between evaluations: none of them may matter
+                    r3 = rng.random()
+                    if r3 < 0.4:
+                        client_ops[c].append({"op": "str", "obj": oid})
+                    elif r3 < 0.7:
+                        client_ops[c].append({"op": "modules", "ev": ev})
+                    elif spec.get("arch"):
+                        client_ops[c].append({"op": "str", "obj": spec["arch"]})
+                    faults["F11_observation_between_evaluations"] += 1
                 client_ops[c].append({"op": "apply", "obj": oid, "ev": ev, "key": key})
+                if spec.get("arch") and rng.random() < 0.3:
+                    client_ops[c].append({"op": "str", "obj": spec["arch"]})
                 used_pairs.append((robjs[oid], cid))
                 budget -= 1
     client_ops[0] = setup + client_ops[0]
